@@ -344,6 +344,14 @@ func sqlAll(c *corpus, r *rng, tier string, scale int) *inputSet {
 	for i := 0; i < z.frag; i++ {
 		s.add("fragments", c.fragments(r, sqlSeparators, 8))
 	}
+	// literal forms: every q-quote delimiter byte, and random literal bodies behind every opening mode
+	for _, x := range qDelimiterInputs() {
+		s.add("q-delimiters", x)
+	}
+	openers := []string{"'", "\"", "`", "@'", "@`", "n'", "e'", "u&'", "q'(", "q'x", "nq'[", "$$", "$a$", "x'", "b'", "1 '", "x \""}
+	for i := 0; i < z.frag; i++ {
+		s.add("literal-bodies", openers[r.intn(len(openers))]+randomSeq(r, bodyAlphabetSQL, 1, 8))
+	}
 	base := append(append([]string{}, c.sql...), c.kept...)
 	for i := 0; i < z.mut && len(base) > 0; i++ {
 		x := base[r.intn(len(base))]
